@@ -57,6 +57,13 @@ Theorem C28_poscar_roundtrip :
     exists content, poscar_write s = Some content /\ poscar_read g content s0 = (s, OK).
 Proof. exact poscar_roundtrip. Qed.
 
+(* POSCAR files with an element-name line are read block by block into the species named on that line (model
+   poscar_read_named, compared with the implementation on permuted / incomplete name lines by the harness); without
+   a name line this is the plain reader of the round-trip theorem. *)
+Theorem C28_named_reader_default :
+  forall g content s, poscar_read_named g (zrange (length content)) content s = poscar_read g content s.
+Proof. exact poscar_read_named_default. Qed.
+
 (* The guard the property demands (and the proposed repair  c < -1 or c >= self.Nchem) is one. *)
 Theorem C28_declared_guard_ok : forall nchem, guard_ok (guard_declared (Z.of_nat nchem)) nchem.
 Proof. exact guard_ok_declared. Qed.
@@ -98,3 +105,5 @@ Goal True. idtac "ASSUMPTIONS-OF C28_source_guard_refuted". Abort.
 Print Assumptions C28_source_guard_refuted.
 Goal True. idtac "ASSUMPTIONS-OF C28_checker_sound". Abort.
 Print Assumptions C28_checker_sound.
+Goal True. idtac "ASSUMPTIONS-OF C28_named_reader_default". Abort.
+Print Assumptions C28_named_reader_default.
